@@ -1,1 +1,319 @@
-From Lou Require Import Model.Image.
+(* Proofs for C12: soundness of the image checker (Model/Image.v) and the bump allocator. *)
+From Coq Require Import List ZArith Bool FMapPositive Lia.
+From Lou Require Import Gen.GConst Gen.GChain Model.Image.
+Import ListNotations.
+Local Open Scope Z_scope.
+
+(* ------------------------------------------------------------------ units *)
+Lemma units_nonneg : forall n, 0 <= n -> 0 <= units n.
+Proof. intros n Hn. unfold units. apply Z.div_pos; lia. Qed.
+
+Lemma units_ge : forall n, n <= units n * 8.
+Proof.
+  intros n. unfold units.
+  pose proof (Z.div_mod (n + 7) 8 ltac:(lia)) as Hdm.
+  pose proof (Z.mod_pos_bound (n + 7) 8 ltac:(lia)) as Hb.
+  lia.
+Qed.
+
+(* ------------------------------------------------------------------ the parts of check_image *)
+Lemma check_image_parts : forall i, check_image i = true ->
+  allocs_ok (i_used i) 1 (i_allocs i) = true /\
+  forallb (ref_ok (build_map (i_allocs i))) (i_refs i) = true /\
+  forallb (bucket_ok (build_map (i_allocs i)) fwd_before) (i_fwd i) = true /\
+  forallb (bucket_ok (build_map (i_allocs i)) (fun _ _ => false)) (i_back i) = true /\
+  forallb (record_ok (build_map (i_allocs i)) single_before_e) (i_chars i) = true /\
+  forallb (record_ok (build_map (i_allocs i)) (fun _ _ => false)) (i_cells i) = true /\
+  forallb (pass_ok (build_map (i_allocs i)) fpass_before) (i_fpass i) = true /\
+  forallb (pass_ok (build_map (i_allocs i)) bpass_before) (i_bpass i) = true.
+Proof.
+  intros i H. unfold check_image in H.
+  apply andb_prop in H. destruct H as [H H8].
+  apply andb_prop in H. destruct H as [H H7].
+  apply andb_prop in H. destruct H as [H H6].
+  apply andb_prop in H. destruct H as [H H5].
+  apply andb_prop in H. destruct H as [H H4].
+  apply andb_prop in H. destruct H as [H H3].
+  apply andb_prop in H. destruct H as [H1 H2].
+  repeat split; assumption.
+Qed.
+
+(* ------------------------------------------------------------------ allocations *)
+Lemma allocs_ok_spec : forall l used p, allocs_ok used p l = true ->
+  (forall a, In a l -> p <= a_off a /\ 0 < a_off a /\ 0 <= a_size a /\ a_off a * 8 + a_size a <= used) /\
+  (forall k1 k2 a b, (k1 < k2)%nat -> nth_error l k1 = Some a -> nth_error l k2 = Some b ->
+                     a_off a + units (a_size a) <= a_off b).
+Proof.
+  induction l as [|a0 l IH]; intros used p H.
+  - split.
+    + intros a [].
+    + intros k1 k2 a b _ Ha. destruct k1; discriminate Ha.
+  - cbn [allocs_ok] in H.
+    apply andb_prop in H. destruct H as [H Hrest].
+    apply andb_prop in H. destruct H as [H Hused].
+    apply andb_prop in H. destruct H as [H Hprev].
+    apply andb_prop in H. destruct H as [Hpos Hsz].
+    apply Z.ltb_lt in Hpos. apply Z.leb_le in Hsz. apply Z.leb_le in Hprev. apply Z.leb_le in Hused.
+    destruct (IH _ _ Hrest) as [IHa IHo].
+    pose proof (units_nonneg _ Hsz) as Hu.
+    split.
+    + intros a [Ha | Ha].
+      * subst a. repeat split; lia.
+      * destruct (IHa a Ha) as (Hp' & H0 & Hs & Hu'). repeat split; lia.
+    + intros k1 k2 a b Hlt Ha Hb.
+      destruct k2 as [|k2]; [lia|].
+      cbn [nth_error] in Hb.
+      destruct k1 as [|k1].
+      * cbn [nth_error] in Ha. injection Ha as Ha. subst a0.
+        apply nth_error_In in Hb. destruct (IHa b Hb) as (Hp' & _). exact Hp'.
+      * cbn [nth_error] in Ha. apply (IHo k1 k2 a b); [lia| assumption | assumption].
+Qed.
+
+Lemma allocs_sound_l : forall i, check_image i = true ->
+  (forall a, In a (i_allocs i) -> 1 <= a_off a /\ 0 <= a_size a /\ a_off a * 8 + a_size a <= i_used i) /\
+  (forall k1 k2 a b, (k1 < k2)%nat -> nth_error (i_allocs i) k1 = Some a -> nth_error (i_allocs i) k2 = Some b ->
+                     a_off a + units (a_size a) <= a_off b).
+Proof.
+  intros i H. apply check_image_parts in H. destruct H as (Hal & _).
+  destruct (allocs_ok_spec _ _ _ Hal) as [Ha Ho].
+  split.
+  - intros a Hin. destruct (Ha a Hin) as (_ & H0 & Hs & Hu). repeat split; lia.
+  - exact Ho.
+Qed.
+
+(* ------------------------------------------------------------------ the offset map *)
+Definition map_step (m : amap) (a : alloc) : amap :=
+  if 0 <? a_off a then PositiveMap.add (Z.to_pos (a_off a)) (a_size a) m else m.
+
+Lemma find_alloc_step : forall m a off sz,
+  find_alloc (map_step m a) off = Some sz ->
+  find_alloc m off = Some sz \/ (a_off a = off /\ a_size a = sz).
+Proof.
+  intros m a off sz H. unfold find_alloc, map_step in *.
+  destruct (0 <? off) eqn:Hoff; [|discriminate H].
+  destruct (0 <? a_off a) eqn:Ha; [|left; exact H].
+  apply Z.ltb_lt in Hoff. apply Z.ltb_lt in Ha.
+  destruct (Pos.eq_dec (Z.to_pos off) (Z.to_pos (a_off a))) as [He | Hne].
+  - rewrite He in H. rewrite PositiveMap.gss in H. injection H as H.
+    right. split; [|exact H]. symmetry. apply Z2Pos.inj; assumption.
+  - rewrite PositiveMap.gso in H by exact Hne. left. exact H.
+Qed.
+
+Lemma find_alloc_fold : forall l m off sz,
+  find_alloc (fold_left map_step l m) off = Some sz ->
+  find_alloc m off = Some sz \/ exists a, In a l /\ a_off a = off /\ a_size a = sz.
+Proof.
+  induction l as [|a0 l IH]; intros m off sz H.
+  - left. exact H.
+  - cbn [fold_left] in H. destruct (IH _ _ _ H) as [Hm | (a & Hin & Ho & Hs)].
+    + destruct (find_alloc_step _ _ _ _ Hm) as [Hm' | [Ho Hs]].
+      * left. exact Hm'.
+      * right. exists a0. split; [left; reflexivity | split; assumption].
+    + right. exists a. split; [right; exact Hin | split; assumption].
+Qed.
+
+Lemma find_alloc_build : forall l off sz,
+  find_alloc (build_map l) off = Some sz -> exists a, In a l /\ a_off a = off /\ a_size a = sz.
+Proof.
+  intros l off sz H. change (build_map l) with (fold_left map_step l (PositiveMap.empty Z)) in H.
+  destruct (find_alloc_fold _ _ _ _ H) as [He | Hex]; [|exact Hex].
+  unfold find_alloc in He. destruct (0 <? off); [|discriminate He].
+  rewrite PositiveMap.gempty in He. discriminate He.
+Qed.
+
+Lemma refs_sound_l : forall i r, check_image i = true -> In r (i_refs i) ->
+  (r_target r = 0 /\ r_nullok r = true) \/
+  (exists a, In a (i_allocs i) /\ a_off a = r_target r /\ r_need r <= a_size a).
+Proof.
+  intros i r H Hin. apply check_image_parts in H. destruct H as (_ & Hrefs & _).
+  rewrite forallb_forall in Hrefs. specialize (Hrefs r Hin). unfold ref_ok in Hrefs.
+  destruct (Z.eqb_spec (r_target r) 0) as [Hz | Hnz].
+  - left. split; assumption.
+  - right. destruct (find_alloc (build_map (i_allocs i)) (r_target r)) as [sz|] eqn:Hf; [|discriminate Hrefs].
+    apply Z.leb_le in Hrefs.
+    destruct (find_alloc_build _ _ _ Hf) as (a & Ha & Ho & Hs).
+    exists a. split; [exact Ha | split; [exact Ho | lia]].
+Qed.
+
+(* ------------------------------------------------------------------ chains *)
+Lemma nodup_offs_spec : forall l, nodup_offs l = true -> NoDup (map c_off l).
+Proof.
+  induction l as [|x l IH]; intros H.
+  - constructor.
+  - cbn [nodup_offs] in H. apply andb_prop in H. destruct H as [Hx Hl].
+    cbn [map]. constructor.
+    + intros Hin. apply in_map_iff in Hin. destruct Hin as (y & Hy & Hyin).
+      apply negb_true_iff in Hx.
+      assert (Hex : existsb (fun y => c_off y =? c_off x) l = true).
+      { apply existsb_exists. exists y. split; [exact Hyin | apply Z.eqb_eq; exact Hy]. }
+      rewrite Hex in Hx. discriminate Hx.
+    + apply IH. exact Hl.
+Qed.
+
+Lemma members_allocated_spec : forall allocs l, members_allocated (build_map allocs) l = true ->
+  forall x, In x l -> exists a, In a allocs /\ a_off a = c_off x.
+Proof.
+  intros allocs l H x Hin. unfold members_allocated in H. rewrite forallb_forall in H.
+  specialize (H x Hin).
+  destruct (find_alloc (build_map allocs) (c_off x)) as [sz|] eqn:Hf; [|discriminate H].
+  destruct (find_alloc_build _ _ _ Hf) as (a & Ha & Ho & _).
+  exists a. split; assumption.
+Qed.
+
+Lemma ordered_spec : forall before l, ordered before l = true ->
+  forall k1 k2 x y, (k1 < k2)%nat -> nth_error l k1 = Some x -> nth_error l k2 = Some y -> before y x = false.
+Proof.
+  intros before. induction l as [|x0 l IH]; intros H k1 k2 x y Hlt Hx Hy.
+  - destruct k1; discriminate Hx.
+  - cbn [ordered] in H. apply andb_prop in H. destruct H as [Hhd Htl].
+    destruct k2 as [|k2]; [lia|]. cbn [nth_error] in Hy.
+    destruct k1 as [|k1]; cbn [nth_error] in Hx.
+    + injection Hx as Hx. subst x0. rewrite forallb_forall in Hhd.
+      apply nth_error_In in Hy. specialize (Hhd y Hy). apply negb_true_iff in Hhd. exact Hhd.
+    + apply (IH Htl k1 k2); [lia | assumption | assumption].
+Qed.
+
+Lemma fwd_sound_l : forall i h l, check_image i = true -> In (h, l) (i_fwd i) ->
+  NoDup (map c_off l) /\
+  (forall x, In x l -> exists a, In a (i_allocs i) /\ a_off a = c_off x) /\
+  (forall x, In x l -> (if c_op x =? CTO_Context then c_low x else c_raw x) = h) /\
+  (forall k1 k2 x y, (k1 < k2)%nat -> nth_error l k1 = Some x -> nth_error l k2 = Some y ->
+     c_len y <= c_len x /\ (c_len y = c_len x -> c_op x = CTO_Always -> c_op y = CTO_Always)).
+Proof.
+  intros i h l H Hin. apply check_image_parts in H. destruct H as (_ & _ & Hfwd & _).
+  rewrite forallb_forall in Hfwd. specialize (Hfwd _ Hin). unfold bucket_ok in Hfwd.
+  apply andb_prop in Hfwd. destruct Hfwd as [Hfwd Hord].
+  apply andb_prop in Hfwd. destruct Hfwd as [Hfwd Hbk].
+  apply andb_prop in Hfwd. destruct Hfwd as [Hnd Hmem].
+  split; [apply nodup_offs_spec; exact Hnd|].
+  split; [apply members_allocated_spec with (l := l); exact Hmem|].
+  split.
+  - intros x Hx. rewrite forallb_forall in Hbk. specialize (Hbk x Hx). unfold in_bucket in Hbk.
+    destruct (c_op x =? CTO_Context); apply Z.eqb_eq in Hbk; exact Hbk.
+  - intros k1 k2 x y Hlt Hx Hy.
+    pose proof (ordered_spec _ _ Hord k1 k2 x y Hlt Hx Hy) as Hb.
+    unfold fwd_before, fwd_multi_before in Hb.
+    apply orb_false_iff in Hb. destruct Hb as [Hgt Heq].
+    destruct (Z.gtb_spec (c_len y) (c_len x)) as [Hg | Hle]; [discriminate Hgt|].
+    split; [exact Hle|].
+    intros Hlen Hop. unfold CTO_Always in *.
+    destruct (Z.eqb_spec (c_len y) (c_len x)) as [_ | Hne]; [|contradiction].
+    destruct (Z.eqb_spec (c_op x) 83) as [_ | Hne]; [|contradiction].
+    destruct (Z.eqb_spec (c_op y) 83) as [He | _]; [exact He | discriminate Heq].
+Qed.
+
+Lemma chars_sound_l : forall i v b l, check_image i = true -> In (v, b, l) (i_chars i) ->
+  b = char_hash v /\ NoDup (map c_off l) /\
+  (forall x, In x l -> exists a, In a (i_allocs i) /\ a_off a = c_off x) /\
+  (forall k1 k2 x y, (k1 < k2)%nat -> nth_error l k1 = Some x -> nth_error l k2 = Some y ->
+     is_def_op (c_op x) = true -> is_def_op (c_op y) = true).
+Proof.
+  intros i v b l H Hin. apply check_image_parts in H. destruct H as (_ & _ & _ & _ & Hch & _).
+  rewrite forallb_forall in Hch. specialize (Hch _ Hin). unfold record_ok in Hch.
+  apply andb_prop in Hch. destruct Hch as [Hch Hord].
+  apply andb_prop in Hch. destruct Hch as [Hch Hmem].
+  apply andb_prop in Hch. destruct Hch as [Hch Hnd].
+  apply andb_prop in Hch. destruct Hch as [_ Hb].
+  split; [apply Z.eqb_eq; exact Hb|].
+  split; [apply nodup_offs_spec; exact Hnd|].
+  split; [apply members_allocated_spec with (l := l); exact Hmem|].
+  intros k1 k2 x y Hlt Hx Hy Hdef.
+  pose proof (ordered_spec _ _ Hord k1 k2 x y Hlt Hx Hy) as Hbf.
+  unfold single_before_e, fwd_single_before in Hbf.
+  unfold is_def_op in *.
+  apply orb_false_iff in Hbf. destruct Hbf as [_ Hbf].
+  rewrite Hdef in Hbf.
+  destruct ((c_op y >=? 61) && (c_op y <? 70)); [reflexivity | discriminate Hbf].
+Qed.
+
+(* ------------------------------------------------------------------ the allocator *)
+Lemma grow_preserves_l : forall hdr sizes n,
+  exists a, ar_allocs (fold_left (fun ar n => fst (arena_alloc hdr ar n)) (sizes ++ [n]) (arena_init hdr))
+            = a :: ar_allocs (fold_left (fun ar n => fst (arena_alloc hdr ar n)) sizes (arena_init hdr))
+            /\ a_size a = n.
+Proof.
+  intros hdr sizes n. rewrite fold_left_app. cbn [fold_left].
+  unfold arena_alloc at 1. cbn [fst ar_allocs].
+  eexists. split; reflexivity.
+Qed.
+
+Definition end_of (p : Z) (l : list alloc) : Z :=
+  fold_left (fun _ a => a_off a + units (a_size a)) l p.
+
+Lemma allocs_ok_mono : forall l used used' p, allocs_ok used p l = true -> used <= used' ->
+  allocs_ok used' p l = true.
+Proof.
+  induction l as [|a l IH]; intros used used' p H Hle.
+  - reflexivity.
+  - cbn [allocs_ok] in *.
+    apply andb_prop in H. destruct H as [H Hrest].
+    apply andb_prop in H. destruct H as [H Hused].
+    apply andb_prop in H. destruct H as [H Hprev].
+    apply Z.leb_le in Hused.
+    rewrite H, Hprev, (IH _ _ _ Hrest Hle).
+    assert (Hu : (a_off a * 8 + a_size a <=? used') = true) by (apply Z.leb_le; lia).
+    rewrite Hu. reflexivity.
+Qed.
+
+Lemma allocs_ok_app : forall l used p a, allocs_ok used p l = true ->
+  end_of p l <= a_off a -> 0 < a_off a -> 0 <= a_size a -> a_off a * 8 + a_size a <= used ->
+  allocs_ok used p (l ++ [a]) = true.
+Proof.
+  induction l as [|a0 l IH]; intros used p a H Hend Hpos Hsz Hused.
+  - unfold end_of in Hend. cbn [fold_left] in Hend. cbn [app allocs_ok].
+    apply Z.ltb_lt in Hpos. apply Z.leb_le in Hsz. apply Z.leb_le in Hend. apply Z.leb_le in Hused.
+    rewrite Hpos, Hsz, Hend, Hused. reflexivity.
+  - cbn [app allocs_ok] in *.
+    apply andb_prop in H. destruct H as [H Hrest].
+    rewrite H. cbn [andb].
+    apply IH; try assumption.
+Qed.
+
+Definition arena_inv (hdr : Z) (ar : arena) : Prop :=
+  exists x, ar_used ar - hdr = 8 * x /\ 1 <= x /\
+            end_of 1 (rev (ar_allocs ar)) = x /\
+            allocs_ok (ar_used ar - hdr) 1 (rev (ar_allocs ar)) = true.
+
+Lemma arena_inv_init : forall hdr, arena_inv hdr (arena_init hdr).
+Proof.
+  intros hdr. exists 1. unfold arena_init. cbn [ar_used ar_allocs rev end_of fold_left allocs_ok].
+  repeat split; lia.
+Qed.
+
+Lemma arena_inv_step : forall hdr ar n, 0 <= n -> arena_inv hdr ar ->
+  arena_inv hdr (fst (arena_alloc hdr ar n)).
+Proof.
+  intros hdr ar n Hn (x & Hx & H1 & Hend & Hok).
+  unfold arena_alloc. cbn [fst].
+  pose proof (units_nonneg n Hn) as Hu. pose proof (units_ge n) as Hg.
+  assert (Hoff : (ar_used ar - hdr) / 8 = x).
+  { rewrite Hx. rewrite Z.mul_comm. apply Z.div_mul. lia. }
+  rewrite Hoff.
+  exists (x + units n). cbn [ar_used ar_allocs rev].
+  split; [lia|]. split; [lia|]. split.
+  - unfold end_of. rewrite fold_left_app. cbn [fold_left a_off a_size]. reflexivity.
+  - apply allocs_ok_app.
+    + apply allocs_ok_mono with (used := ar_used ar - hdr); [exact Hok | lia].
+    + cbn [a_off]. lia.
+    + cbn [a_off]. lia.
+    + cbn [a_size]. exact Hn.
+    + cbn [a_off a_size]. lia.
+Qed.
+
+Lemma arena_inv_fold : forall hdr sizes ar, Forall (fun n => 0 <= n) sizes -> arena_inv hdr ar ->
+  arena_inv hdr (fold_left (fun ar n => fst (arena_alloc hdr ar n)) sizes ar).
+Proof.
+  intros hdr. induction sizes as [|n sizes IH]; intros ar Hall Hinv.
+  - exact Hinv.
+  - cbn [fold_left]. inversion Hall as [|n' l' Hn Hrest]; subst.
+    apply IH; [exact Hrest|]. apply arena_inv_step; assumption.
+Qed.
+
+Lemma arena_ok_l : forall hdr sizes, 0 <= hdr -> hdr mod 8 = 0 -> Forall (fun n => 0 <= n) sizes ->
+  allocs_ok (ar_used (fold_left (fun ar n => fst (arena_alloc hdr ar n)) sizes (arena_init hdr)) - hdr) 1
+            (rev (ar_allocs (fold_left (fun ar n => fst (arena_alloc hdr ar n)) sizes (arena_init hdr)))) = true.
+Proof.
+  intros hdr sizes _ _ Hall.
+  destruct (arena_inv_fold hdr sizes (arena_init hdr) Hall (arena_inv_init hdr)) as (x & _ & _ & _ & Hok).
+  exact Hok.
+Qed.
